@@ -903,3 +903,230 @@ func runKeyReader(p *Prog, r *Report) {
 	r.Counts["E11.key-readers"] = readers
 	r.Clauses = append(r.Clauses, "E11.key-reader: schema keys are decoded with the tolerant json.Unmarshal; no json.Decoder in the module is configured with DisallowUnknownFields")
 }
+
+// E15.double-accumulation — two loops over the same collection each add one fragment per
+// element to the same accumulator (a string built with += / a slice built with append), the
+// second loop is reached after the first on some path, and the accumulator is not
+// re-initialised in between: every element contributes twice (labels rendered twice, a
+// placeholder per label and then another one).
+func runDoubleAccumulation(p *Prog, r *Report) {
+	nPairs := 0
+	for _, fn := range p.Funcs {
+		if fn.Body == nil || fn.Parent != nil {
+			continue
+		}
+		info := fn.Info()
+		type accLoop struct {
+			rs   *ast.RangeStmt
+			accs map[types.Object]bool // accumulators appended to on every path through the body
+		}
+		var loops []accLoop
+		// appendsOnAllPaths: objects that every path through the statement list appends to
+		var coverStmts func(list []ast.Stmt) map[types.Object]bool
+		appendTarget := func(s ast.Stmt) types.Object {
+			as, ok := s.(*ast.AssignStmt)
+			if !ok || len(as.Lhs) != 1 || len(as.Rhs) != 1 {
+				return nil
+			}
+			id, ok := as.Lhs[0].(*ast.Ident)
+			if !ok {
+				return nil
+			}
+			o := info.ObjectOf(id)
+			if as.Tok == token.ADD_ASSIGN {
+				if b, ok := o.Type().Underlying().(*types.Basic); ok && b.Info()&types.IsString != 0 {
+					return o
+				}
+				return nil
+			}
+			if as.Tok == token.ASSIGN {
+				if c, ok := ast.Unparen(as.Rhs[0]).(*ast.CallExpr); ok && isBuiltinCall(info, c, "append") && len(c.Args) >= 2 {
+					if aid, ok := ast.Unparen(c.Args[0]).(*ast.Ident); ok && info.ObjectOf(aid) == o {
+						return o
+					}
+				}
+			}
+			return nil
+		}
+		coverStmts = func(list []ast.Stmt) map[types.Object]bool {
+			out := map[types.Object]bool{}
+			for _, s := range list {
+				if o := appendTarget(s); o != nil {
+					out[o] = true
+					continue
+				}
+				if is, ok := s.(*ast.IfStmt); ok && is.Else != nil {
+					a := coverStmts(is.Body.List)
+					var b map[types.Object]bool
+					switch e := is.Else.(type) {
+					case *ast.BlockStmt:
+						b = coverStmts(e.List)
+					case *ast.IfStmt:
+						b = coverStmts([]ast.Stmt{e})
+					}
+					for o := range a {
+						if b[o] {
+							out[o] = true
+						}
+					}
+				}
+			}
+			return out
+		}
+		ast.Inspect(fn.Body, func(n ast.Node) bool {
+			if _, ok := n.(*ast.FuncLit); ok {
+				return false
+			}
+			if rs, ok := n.(*ast.RangeStmt); ok {
+				if accs := coverStmts(rs.Body.List); len(accs) > 0 {
+					loops = append(loops, accLoop{rs, accs})
+				}
+			}
+			return true
+		})
+		for i := 0; i < len(loops); i++ {
+			for j := i + 1; j < len(loops); j++ {
+				a, b := loops[i], loops[j]
+				if nodeContains(a.rs, b.rs) || nodeContains(b.rs, a.rs) {
+					continue
+				}
+				if exprStr(a.rs.X) != exprStr(b.rs.X) {
+					continue
+				}
+				for o := range a.accs {
+					if !b.accs[o] {
+						continue
+					}
+					if o.Pos() >= a.rs.Pos() && o.Pos() < a.rs.End() {
+						continue
+					}
+					nPairs++
+					key := o.Name() + " over " + cmpText(a.rs.X) + " twice"
+					// is the second loop reached from the first without a re-initialisation?
+					reinit := false
+					for _, asn := range fn.Assignments(o) {
+						if as, ok := asn.(*ast.AssignStmt); ok && as.Pos() > a.rs.End() && as.End() < b.rs.Pos() && appendTarget(as) == nil {
+							if fn.Dominates(as, b.rs.X) {
+								reinit = true
+							}
+						}
+					}
+					if reinit || !reachesStmt(fn, a.rs.X, b.rs.X, nil) {
+						r.Add("E15.double-accumulation", fn.Name, key, p.Pos(b.rs), OK, "the second loop is not reached after the first, or the accumulator is re-initialised in between", true)
+						continue
+					}
+					r.Add("E15.double-accumulation", fn.Name, key, p.Pos(b.rs), Violated,
+						"both loops add one fragment per element of "+cmpText(a.rs.X)+" to "+o.Name()+" on every path through their body, the second loop (here) is reached after the first ("+p.Pos(a.rs)+") and "+o.Name()+" is not re-initialised in between: every element contributes twice", true)
+				}
+			}
+		}
+	}
+	r.Counts["E15.same-collection-accumulating-loop-pairs"] = nPairs
+	r.Clauses = append(r.Clauses, "E15.double-accumulation: two loops over the same collection that each add a fragment per element to the same accumulator are not both executed on one path without re-initialising it")
+}
+
+// E15.search-forwards-miss — a search loop (`for … { … return v, true }; return zero, false`)
+// that returns a callee's (value, ok) pair directly — `return c.Lookup()` — lets the first
+// candidate decide: when that callee reports ok == false the function answers "not found"
+// although later elements were never tried.
+func runSearchForwardsMiss(p *Prog, r *Report) {
+	nLoops := 0
+	for _, fn := range p.Funcs {
+		if fn.Body == nil || fn.Type.Results == nil {
+			continue
+		}
+		info := fn.Info()
+		// last result is a bool
+		nres := 0
+		var lastT types.Type
+		for _, f := range fn.Type.Results.List {
+			k := len(f.Names)
+			if k == 0 {
+				k = 1
+			}
+			nres += k
+			lastT = info.TypeOf(f.Type)
+		}
+		if nres < 2 || lastT == nil {
+			continue
+		}
+		if b, ok := lastT.Underlying().(*types.Basic); !ok || b.Kind() != types.Bool {
+			continue
+		}
+		ast.Inspect(fn.Body, func(m ast.Node) bool {
+			if lit, ok := m.(*ast.FuncLit); ok && lit != fn.Lit {
+				return false
+			}
+			var body *ast.BlockStmt
+			switch l := m.(type) {
+			case *ast.RangeStmt:
+				body = l.Body
+			case *ast.ForStmt:
+				body = l.Body
+			default:
+				return true
+			}
+			// the function falls back to "false" after the loop
+			fallback := false
+			ast.Inspect(fn.Body, func(z ast.Node) bool {
+				if rs, ok := z.(*ast.ReturnStmt); ok && rs.Pos() > m.End() && len(rs.Results) == nres {
+					if id, ok := ast.Unparen(rs.Results[nres-1]).(*ast.Ident); ok && id.Name == "false" {
+						fallback = true
+					}
+				}
+				return true
+			})
+			if !fallback {
+				return true
+			}
+			nLoops++
+			ast.Inspect(body, func(z ast.Node) bool {
+				if _, ok := z.(*ast.FuncLit); ok {
+					return false
+				}
+				rs, ok := z.(*ast.ReturnStmt)
+				if !ok || len(rs.Results) != 1 {
+					return true
+				}
+				call, ok := ast.Unparen(rs.Results[0]).(*ast.CallExpr)
+				if !ok {
+					return true
+				}
+				if tup, ok := info.TypeOf(call).(*types.Tuple); ok && tup.Len() == nres {
+					// guarded by the callee's own ok elsewhere? (`if _, ok := c.F(); ok { return c.F() }`)
+					if guardedByCallOk(fn, rs, call) {
+						r.Add("E15.search-forwards-miss", fn.Name, "return "+exprStr(call.Fun)+"(…) in a search loop", p.Pos(rs), OK, "reached only after the same lookup succeeded", true)
+						return true
+					}
+					r.Add("E15.search-forwards-miss", fn.Name, "return "+exprStr(call.Fun)+"(…) in a search loop", p.Pos(rs), Violated,
+						"the loop searches for the first element that yields a result (the function answers false after the loop), but the pair returned by "+exprStr(call.Fun)+" is handed on unexamined: when it reports false for the first candidate, the remaining elements are never tried", true)
+				}
+				return true
+			})
+			return true
+		})
+	}
+	r.Counts["E15.search-loops-with-false-fallback"] = nLoops
+	r.Clauses = append(r.Clauses, "E15.search-forwards-miss: a search loop whose function answers false after the loop does not return a callee's (value, ok) pair unexamined")
+}
+
+func guardedByCallOk(fn *Func, at ast.Node, call *ast.CallExpr) bool {
+	want := exprStr(call.Fun)
+	for _, a := range fn.GuardsAt(at).AllAtoms() {
+		if a == nil || a.E == nil || !a.Pol {
+			continue
+		}
+		id, ok := ast.Unparen(a.E).(*ast.Ident)
+		if !ok {
+			continue
+		}
+		for _, asn := range fn.Assignments(fn.Info().ObjectOf(id)) {
+			if s, ok := asn.(*ast.AssignStmt); ok && len(s.Rhs) == 1 {
+				if c, ok := ast.Unparen(s.Rhs[0]).(*ast.CallExpr); ok && exprStr(c.Fun) == want {
+					return true
+				}
+			}
+		}
+	}
+	return false
+}
